@@ -508,6 +508,18 @@ func (c *fnCtx) lin0(v ssa.Value) Lin {
 		return c.atom(v)
 	case *ssa.Call:
 		cal := calleeOf(x)
+		if cal.Method != nil && len(x.Call.Args) == 0 {
+			// contract of the module's own length-reporting interface methods (wire.Body.Len,
+			// Item.EncodedLen, Item.Size): a length is never negative (trusted base, DESIGN.md §6)
+			switch cal.Method.Name() {
+			case "Len", "EncodedLen", "Size":
+				if isIntType(x.Type()) {
+					r := c.atom(v)
+					c.addDef(leq(linConst(0), r, cal.Method.Name()+"() ≥ 0"))
+					return r
+				}
+			}
+		}
 		switch cal.Builtin {
 		case "len":
 			return c.linLen(x.Call.Args[0])
